@@ -200,7 +200,9 @@ extern "C" int select(int nfds, fd_set* r, fd_set* w, fd_set* e, struct timeval*
 	int cnt = 0;
 	fd_set out; FD_ZERO(&out);
 	for (int fd = BASE; fd < nfds && fd < BASE + N; fd++) if (FD_ISSET(fd, r)) { VS* s = &S[fd - BASE]; if (s->state != FREE && readable(*s)) { FD_SET(fd, &out); cnt++; if (s->eof && s->in.empty()) idle_op(*s, "select() polled at end of stream"); } }
-	*r = out; if (w) FD_ZERO(w); if (e) FD_ZERO(e);
+	for (int fd = 0; fd < nfds && fd < FD_SETSIZE; fd++) FD_CLR(fd, r); // like the kernel: descriptors at or above nfds are neither examined nor cleared
+	for (int fd = BASE; fd < nfds && fd < BASE + N; fd++) if (FD_ISSET(fd, &out)) FD_SET(fd, r);
+	if (w) FD_ZERO(w); if (e) FD_ZERO(e);
 	return cnt;
 }
 extern "C" int setsockopt(int fd, int l, int o, const void* v, socklen_t n) { REAL(int, setsockopt, int, int, int, const void*, socklen_t); if (!isv(fd)) return real(fd, l, o, v, n); return get(fd) ? 0 : (errno = EBADF, -1); }
